@@ -346,6 +346,7 @@ class Interp:
         self.called = {}     # memo key -> set of function qns invoked (transitively) in that run
         self.rec_hit = set()
         self.approx = {}
+        self.throws = {}     # memo key -> set of (valuation, throw node id, fn key) reachable throws
         self.idx = {f: i for i, f in enumerate(model.flag_names)}
 
     def _set(self, val, flag, v):
@@ -409,12 +410,13 @@ class Interp:
             return (self.approx.get(key, frozenset()), [])
         self.active.add(key)
         self.called[key] = set()
+        self.throws[key] = set()
         self.approx[key] = frozenset()
         try:
             rounds = 0
             while True:
                 rounds += 1
-                res = self._run(fn, val, binding, self.called[key])
+                res = self._run(fn, val, binding, self.called[key], self.throws[key])
                 if key not in self.rec_hit or res[0] == self.approx[key] or rounds > 64:
                     break
                 self.approx[key] = res[0]
@@ -430,9 +432,15 @@ class Interp:
         key = (fn.key, val, tuple(sorted((binding or {}).items())))
         return self.called.get(key, set())
 
-    def _run(self, fn, val, binding, called=None):
+    def throws_of(self, fn, val, binding=None):
+        key = (fn.key, val, tuple(sorted((binding or {}).items())))
+        return self.throws.get(key, set())
+
+    def _run(self, fn, val, binding, called=None, thrown=None):
         if called is None:
             called = set()
+        if thrown is None:
+            thrown = set()
         self.visited_fns.add(fn.key)
         if fn.body is None or not fn.rec.get("cfg"):
             return (frozenset([val]), [])
@@ -464,6 +472,8 @@ class Interp:
                 k = n.get("k")
                 if k == "CXXThrowExpr":
                     throws = True
+                    for x in st:
+                        thrown.add((x, n["id"], fn.key))
                     continue
                 if k == "MemberExpr":
                     tf = this_field(n)
@@ -506,6 +516,7 @@ class Interp:
                             for x in st:
                                 ex, sub = self.run(callee, x, bnd)
                                 called |= self.calls_of(callee, x, bnd)
+                                thrown |= self.throws_of(callee, x, bnd)
                                 new |= ex
                                 for sv in sub:
                                     viol.setdefault((sv["in"], sv["field"]), sv)
@@ -886,6 +897,109 @@ def rule_lazy_caches(ctx):
                            "the cache on every path: a later query can be answered from a vector computed for the "
                            "previous input" % (hit, cfield))
     ctx.floor(RULE, 4, n, "cache invalidation obligations")
+
+
+
+def _is_badreg_throw(fx, fnkey, node_id):
+    fn = fx.functions.get(fnkey)
+    if fn is None:
+        for f in fx.functions.values():
+            if f.key == fnkey:
+                fn = f
+                break
+    if fn is None:
+        return False
+    n = fn.nodes.get(node_id)
+    if n is None:
+        return False
+    return any(x.get("k") == "DeclRefExpr" and x["ref"].get("name") == "BadRegularization" for x in F.walk(n))
+
+
+def rule_lazy_rethrow(ctx):
+    """R-ERR on typestate: after a solver has signalled an unresolvable regularisation
+    (throw Exception::BadRegularization), the queries the caller makes inside its handler
+    (LocalNetwork::null_space: lindep(), defect()) must not throw the same exception again - i.e. started
+    in any flag state in which the throw can happen, they reach no BadRegularization throw.
+    (AdjCholDec / AdjGSO mark the system solved before throwing; AdjEnvelope::lindep needs only the
+    factorisation; SVD marks itself decomposed before min_subset_x may throw.)"""
+    table = engine.load_table("lazy.json")
+    fx = ctx.facts
+    n = 0
+    for cname, rs in table.get("rethrow_free", {}).items():
+        spec = table["classes"][cname]
+        model = ClassModel(fx, cname, spec)
+        interp = Interp(model)
+        sname = short(model.name)
+        allv = model.all_valuations()
+        inv_vals = [v for v in allv if all(p.holds1(model.as_dict(v)) for p in model.invariant)]
+        by_name = {}
+        for m in model.methods:
+            by_name.setdefault(m.name, m)
+        # flag states at the moment of a BadRegularization throw, from any entry of the throwing entry points
+        throw_states = set()
+        for ename in rs["throwers"]:
+            m = [x for x in entry_methods(model) + model.methods if x.name == ename and x.body is not None]
+            if not m:
+                raise AnalysisBroken("lazy table: thrower %s::%s not found" % (cname, ename))
+            for v in inv_vals:
+                interp.run(m[0], v)
+                for (val, nid, fkey) in interp.throws_of(m[0], v):
+                    if _is_badreg_throw(fx, fkey, nid):
+                        throw_states.add(val)
+        if not throw_states:
+            raise AnalysisBroken("R-ERR: no BadRegularization throw reachable from %s::%s" % (cname, rs["throwers"]))
+        for qname in rs["queries"]:
+            qs = [x for x in entry_methods(model) if x.name == qname]
+            if not qs:
+                raise AnalysisBroken("lazy table: query %s::%s not found" % (cname, qname))
+            q = qs[0]
+            ctx.saw(q)
+            again = []
+            for v in sorted(throw_states):
+                interp.run(q, v)
+                for (val, nid, fkey) in interp.throws_of(q, v):
+                    if _is_badreg_throw(fx, fkey, nid):
+                        again.append(model.as_dict(v))
+                        break
+            n += 1
+            ctx.report("R-ERR", "rethrow:%s::%s" % (sname, qname), not again, q.where(), q.short,
+                       "" if not again else "%s::%s() called after a BadRegularization throw (flags %s) throws it again: "
+                       "LocalNetwork::null_space() queries the solver inside its catch handler and the second "
+                       "exception escapes it" % (sname, qname, again[0]))
+    ctx.floor("R-ERR", 6, n, "rethrow obligations")
+
+
+def rule_lazy_preserve(ctx):
+    """Independent inputs (table 'preserved'): reset(new system) must not change the regularisation
+    subset, because callers may set it before or after reset (Adj::init_least_squares calls min_x()
+    first, LocalNetwork::project_equations afterwards)."""
+    table = engine.load_table("lazy.json")
+    fx = ctx.facts
+    n = 0
+    for cname, pres in table.get("preserved", {}).items():
+        spec = table["classes"][cname]
+        model = ClassModel(fx, cname, spec)
+        sname = short(model.name)
+        for mname, fields in pres.items():
+            if mname.startswith("_"):
+                continue
+            ms = [m for m in entry_methods(model) if m.name == mname]
+            if not ms:
+                raise AnalysisBroken("lazy table: %s::%s not found" % (cname, mname))
+            for m in ms:
+                ctx.saw(m)
+                wr = set()
+                for g in _closure(model, m):
+                    wr |= model.direct_writes(g)
+                for f in fields:
+                    if f not in model.fields:
+                        raise AnalysisBroken("lazy table: preserved field %s not in %s" % (f, cname))
+                    n += 1
+                    ok = f not in wr
+                    ctx.report(RULE, "PRESERVE:%s::%s:%s" % (sname, mname, f), ok, m.where(), m.short,
+                               "" if ok else "%s::%s() changes '%s': the regularisation subset chosen with min_x() before "
+                               "the call is lost" % (sname, mname, f))
+    ctx.floor(RULE, 6, n, "preserved-input obligations")
 
 
 def rule_lazy_chain(ctx):
